@@ -85,6 +85,13 @@ def history(W, d):
                         r[1] = r[1] - 0.25
                 y.hist_bins(scale='log')
                 y.hist_bins(scale='linear')
+            if name == 'float-neg':
+                # bins are asked for, THEN the events are edited in place (background subtraction): later answers follow
+                # the events as they are now
+                x.hist_bins(scale='logicle')
+                x.hist_bins(0, scale='logicle')
+                x[0, 0] = -40.0
+                x[2, 2] = -7.5
             if name in ('raw', 'float-neg'):
                 # a calibration with diagnostic plots on a view of the sample
                 v = x.view()
